@@ -696,6 +696,31 @@ Definition u_buf_fmt : M unit :=
   it <- u_iter_new;;
   u_iter_for_each (S (Z.to_nat (size a))) a it (fun e => emit (EvFmt e);; user_call FFmt).
 
+(* ---- Default, IntoIterator for &CircularBuffer: callers of new / Iter::new;
+        Debug for Iter / IterMut / Drain / IntoIter: callers of Iter::next,
+        Drain::as_slices, Debug for CircularBuffer ------------------------------------- *)
+
+Definition u_default_buf (n : Z) (junk : store) : cbuf := u_new_buf n junk.
+
+Definition u_ref_into_iter : M iter := u_iter_new.
+
+Definition u_iter_fmt (it : iter) : M unit :=
+  src <- get;;
+  let c := iter_clone it in
+  u_iter_for_each (S (Z.to_nat (slen (it_right c) + slen (it_left c)))) src c
+                  (fun e => emit (EvFmt e);; user_call FFmt).
+
+Definition u_iter_mut_fmt (it : iter) : M unit :=
+  let it' := mkI (it_right it) (it_left it) in
+  u_iter_fmt it'.
+
+Definition u_drain_fmt (d : drain) : M unit :=
+  '(rgt, lft) <- u_drain_as_slices d;;
+  let it := mkI rgt lft in
+  u_iter_fmt it.
+
+Definition u_into_iter_fmt : M unit := u_buf_fmt.
+
 (* ---- Clone ---------------------------------------------------------------------------- *)
 
 Fixpoint u_cloned_for_each (fuel : nat) (src : cbuf) (it : iter) (body : elem -> M unit)
@@ -869,6 +894,19 @@ Fixpoint u_run_iter_script (it : iter) (script : list sstep) : M (list sres) :=
     end
   end.
 
+Fixpoint u_iter_after (it : iter) (script : list sstep) : iter :=
+  match script with
+  | [] => it
+  | st :: rest =>
+    match st with
+    | SNext => u_iter_after (fst (u_iter_next it)) rest
+    | SNextBack => u_iter_after (fst (u_iter_next_back it)) rest
+    | SLen | SClone => u_iter_after it rest
+    | SNextSet _ => u_iter_after (fst (u_iter_mut_next it)) rest
+    | SNextBackSet _ => u_iter_after (fst (u_iter_mut_next_back it)) rest
+    end
+  end.
+
 Definition u_replace_buf (nb : cbuf) : M unit :=
   old <- get;;
   put nb;;
@@ -988,6 +1026,35 @@ Definition exec_unstable (o : op) : M out :=
   | ORead fam dst => '(n, d) <- u_fam_read fam dst;; ret (OutRead n d)
   | OFillBuf fam => l <- u_fam_fill_buf fam;; ret (OutList l)
   | OConsume fam amt => u_fam_consume fam amt;; ret OutUnit
+  | OBoxed => s <- get;; nb <- boxed (cap s) junk0;; u_replace_buf nb;; ret OutUnit
+  | ODefault => s <- get;; u_replace_buf (u_default_buf (cap s) junk0);; ret OutUnit
+  | OIterDefault script => rs <- u_run_iter_script iter_default script;; ret (OutScript rs)
+  | OIterMutDefault script =>
+    rs <- u_run_iter_script iter_mut_default script;; ret (OutScript rs)
+  | ORefIntoIter script =>
+    it <- u_ref_into_iter;; rs <- u_run_iter_script it script;; ret (OutScript rs)
+  | OIterDebug sb eb pre =>
+    it <- u_iter_over_range sb eb;;
+    rs <- u_run_iter_script it pre;;
+    u_iter_fmt (u_iter_after it pre);;
+    ret (OutScript rs)
+  | OIterMutDebug sb eb pre =>
+    it <- u_iter_mut_over_range sb eb;;
+    rs <- u_run_iter_script it pre;;
+    u_iter_mut_fmt (u_iter_after it pre);;
+    ret (OutScript rs)
+  | ODrainDebug sb eb pre =>
+    d <- drain_over_range sb eb;;
+    '(d', rs) <- run_drain_script d pre;;
+    finally (u_drain_fmt d') (u_drain_drop d');;
+    ret (OutScript rs)
+  | OIntoIterDebug pre =>
+    s <- get;;
+    put (u_new_buf (cap s) junk0);;
+    '(rs, _) <- with_buf s (rs <- run_into_iter_script pre;;
+                            finally u_into_iter_fmt u_into_iter_drop;;
+                            ret rs);;
+    ret (OutScript rs)
   end.
 
 Fixpoint run_history_unstable (ops : list op) (s : cbuf) (w : world)
